@@ -28,7 +28,7 @@ def _px_of(clr, cols=("count",)):
     return project.pixel_rows(clr.pixels()[:], ["bin1_id", "bin2_id", *cols])
 
 
-@driver("co.coarsen")
+@driver("co.coarsen", timeout=180)
 def co_coarsen(case, ctx):
     import cooler
     from cooler._reduce import CoolerCoarsener
@@ -184,3 +184,63 @@ def zm_resspec(case, ctx):
         return {"err": f"{type(res.exception).__name__}: {str(res.exception)[:80]}", "levels": []}
     lv = sorted(int(p.rsplit("/", 1)[-1]) for p in cooler.fileops.list_coolers(out))
     return {"err": "", "levels": lv}
+
+
+@driver("co.lock", timeout=120)
+def co_lock(case, ctx):
+    """Coarsening with worker processes INTO THE FILE THAT IS BEING READ: the lock acquisitions of the chunk iterator and
+    of the writer, and the begin / end of every worker's read, are logged (one O_APPEND file, so the kernel orders the
+    lines) from harness-side wrappers; the event sequence is validated against CoarsenLock.tla."""
+    import sys
+
+    import cooler
+    import cooler._reduce as R
+    d = ctx.subdir()
+    fp = os.path.join(d, "same.cool")
+    _mk(fp + "::/base", case["table"], case["px"], case["mode"])
+    logf = os.path.join(d, "lock.log")
+    fd = os.open(logf, os.O_WRONLY | os.O_CREAT | os.O_APPEND)
+
+    def log(ev, s=-1):
+        os.write(fd, f"{ev} {s}\n".encode())
+
+    class LockProxy:
+        def __init__(self, real):
+            self.real = real
+
+        def _who(self):
+            name = sys._getframe(2).f_code.co_name
+            return "iter" if name == "__iter__" else "writer" if name == "write_pixels" else name
+
+        def acquire(self, *a, **k):
+            r = self.real.acquire(*a, **k)
+            log("A_" + self._who())                    # after the acquisition
+            return r
+
+        def release(self):
+            log("R_" + self._who())                    # before the release
+            return self.real.release()
+
+    real_lock, real_agg = R.lock, R.CoolerCoarsener.aggregate
+
+    def wrapped(self, span):
+        log("RB", int(span[0]))
+        try:
+            return real_agg(self, span)
+        finally:
+            log("RE", int(span[0]))
+    R.lock = LockProxy(real_lock)
+    R.CoolerCoarsener.aggregate = wrapped
+    try:
+        cooler.coarsen_cooler(fp + "::/base", fp + "::/coarse", case["k"], chunksize=case["chunk"], nproc=case["nproc"])
+    finally:
+        R.lock, R.CoolerCoarsener.aggregate = real_lock, real_agg
+        os.close(fd)
+    events = []
+    with open(logf) as f:
+        for ln in f:
+            e, s = ln.split()
+            events.append({"e": e, "s": int(s)})
+    c = cooler.Cooler(fp + "::/coarse")
+    return {"events": events, "table": _table_of(c), "px": _px_of(c), "base_px": _px_of(cooler.Cooler(fp + "::/base")),
+            "raw": project.raw_uri(fp + "::/coarse")}
